@@ -89,6 +89,10 @@ pub fn san_values() -> Vec<(String, Vec<SanSpec>)> {
         ("ipv4-mapped ipv6".into(), vec![SanSpec::Ip(vec![0, 0, 0, 0, 0, 0, 0, 0, 0, 0, 0xff, 0xff, 192, 0, 2, 1])]),
         ("ipv4-compatible ipv6 + ::1 + ::".into(), vec![SanSpec::Ip(vec![0, 0, 0, 0, 0, 0, 0, 0, 0, 0, 0, 0, 192, 0, 2, 1]), SanSpec::Ip(vec![0, 0, 0, 0, 0, 0, 0, 0, 0, 0, 0, 0, 0, 0, 0, 1]), SanSpec::Ip(vec![0; 16])]),
         ("ipv4 0.0.0.0 + 255.255.255.255".into(), vec![SanSpec::Ip(vec![0, 0, 0, 0]), SanSpec::Ip(vec![255, 255, 255, 255])]),
+        // values of one kind that read like another kind: the kind is what the caller chose, never what the text looks like
+        ("dns that reads as ipv4 / ipv6".into(), vec![SanSpec::Dns("127.0.0.1".into()), SanSpec::Dns("::1".into()), SanSpec::Dns("fe80::".into())]),
+        ("rfc822 and uri that read as ip / dns".into(), vec![SanSpec::Email("192.0.2.7".into()), SanSpec::Uri("10.0.0.1".into()), SanSpec::Email("host.example".into()), SanSpec::Uri("::".into())]),
+        ("dns that reads as rfc822 / uri".into(), vec![SanSpec::Dns("user@example.com".into()), SanSpec::Dns("https://example.com/".into()), SanSpec::Dns("*.example.com".into())]),
     ]
 }
 
